@@ -271,7 +271,7 @@ def run (ctx):
   hc = core.methods.get('hasComponent')
   if hc is not None:
     ctx.analysed(hc); gh = q.cfg_of(hc)
-    def hc_under (name, registered):
+    def hc_under (name, registered, comp='component'):
       is_in_ = lambda e: isinstance(e, ast.Compare) and len(e.ops) == 1 and isinstance(e.ops[0], ast.In) and norm(e.comparators[0]) == 'self.components'
       is_nin_ = lambda e: isinstance(e, ast.Compare) and len(e.ops) == 1 and isinstance(e.ops[0], ast.NotIn) and norm(e.comparators[0]) == 'self.components'
       is_get_ = lambda e: isinstance(e, ast.Call) and call_name(e) == 'get' and norm(e.func.value) == 'self.components'
@@ -280,13 +280,19 @@ def run (ctx):
         if isinstance(call.func, ast.Name) and call.func.id == 'hasattr' and len(call.args) == 2 and norm(call.args[0]) == 'self':
           return (True, registered or core.find_method(name) is not None)
         return (False, None)
-      env = q.Env({hc.params[1]: name}, [(is_in_, registered), (is_nin_, not registered), (is_get_, 'component' if registered else None)], hook)
+      env = q.Env({hc.params[1]: name}, [(is_in_, registered), (is_nin_, not registered), (is_get_, comp if registered else None)], hook)
       out = set()
       for p_, e_ in q.paths_under(repo, mod, gh, env, gh.entry, [n for n in gh.nodes if n.kind == 'return'], core, limit=30):
         try: out.add(bool(q.eval_env2(repo, mod, p_[-1].ast.value, e_, core)))
         except Exception: out.add('?')
       return out
     r_reg, r_meth, r_none = hc_under('topology', True), hc_under('quit', False), hc_under('nosuchthing', False)
+    # a registered component may be falsy (pox.topology's Topology has __len__ == number of entities: empty when registered)
+    r_falsy = hc_under('topology', True, comp=[])
+    if r_falsy and '?' not in r_falsy:
+      ctx.ob('R-AGREE', hc, "a registered component is ready whatever its truth value", r_falsy == {True}, "registered falsy object -> True" if r_falsy == {True} else
+             "hasComponent() of a registered component whose truth value is False (an empty Topology: __len__ is its entity count) evaluates to %s: dependents waiting for it are never called, "
+             "listen_to_dependencies never wires their handlers" % sorted(r_falsy), hc, 'D1')
     if '?' in r_reg | r_meth | r_none or not r_reg or not r_meth:
       ctx.undecided('R-AGREE', hc, "hasComponent is membership in the registry", "not evaluable (%s / %s / %s)" % (sorted(map(str, r_reg)), sorted(map(str, r_meth)), sorted(map(str, r_none))), hc, 'D1')
     else:
@@ -316,6 +322,16 @@ def run (ctx):
              % sorted(outs), ga, 'D3')
     else:
       ctx.undecided('R-AGREE', ga, "core.<name> finds every registered component", "lookup not evaluable", ga, 'D3')
+  # state carried from one call to the next through a default argument built once: what one dependent declares must not
+  # become part of what the next one waits for
+  n_md = 0
+  for f_ in list(core.methods.values()) + list(mod.funcs.values()):
+    n_md += 1
+    for pn_, node_ in q.mutated_defaults(repo, mod, f_, core if f_.cls is not None else None):
+      ctx.bad('R-OWN', f_, "default argument `%s` is not changed in place" % pn_,
+              "`%s` changes the object that is the default value of `%s` (built once, shared by every call that leaves the argument out): what one call adds is seen by the next - "
+              "a later sink also waits for every component the earlier sinks named, and is never wired when one of those never registers" % (node_.text(50), pn_), (mod, node_.ast), 'D5')
+  ctx.stat('functions scanned for mutated defaults', n_md)
   # goUp: holds a deferral across GoingUp
   g = q.cfg_of(goup)
   take = [q.enclosing_stmt_node(g, s_) for t, v, s_, k in q.stores_in(goup.node, nested=False) if isinstance(v, ast.Call) and call_name(v) == '_get_go_up_deferral' and isinstance(t, ast.Name)]
@@ -363,20 +379,24 @@ def _parse_names (ctx, repo, core, ltd):
   for t, v, st, k in q.stores_in(ltd.node, nested=False):
     if isinstance(t, ast.Name) and isinstance(v, ast.Constant) and len(q.reaching_assign(ltd.node, t.id)) == 1: base[t.id] = v.value
   n_ok = 0
+  cw = g.nodes_with_call(lambda c: call_name(c) == 'call_when_ready')
   for name, want in SAMPLES:
-    got = []
-    def on_node (n, env):
-      for c in q.node_calls(n):
-        if call_name(c) == 'add' and isinstance(c.func.value, ast.Name) and c.func.value.id == 'components' and c.args:
-          try: got.append(q.eval_env2(repo, mod, c.args[0], env, core))
-          except Exception: got.append('<unknown>')
-    ex = dict(base); ex[var] = name
-    ps = q.paths_under(repo, mod, g, q.Env(ex), tb, [head], core, on_node=on_node)
-    res = got[0] if got else None
-    if '<unknown>' in got:
+    # the whole function on a sink whose dir() is the one sample name: the set handed to call_when_ready decides
+    ex = dict(base); ex['components'] = None; ex['dir(sink)'] = [name]
+    res = '<unknown>'
+    if cw:
+      vals = []
+      for path, env in q.paths_under(repo, mod, g, q.Env(ex), g.entry, cw, core, limit=40):
+        c_ = [c for c in q.node_calls(path[-1]) if call_name(c) == 'call_when_ready'][0]
+        arg = c_.args[1] if len(c_.args) > 1 else None
+        try: v = q.eval_env2(repo, mod, arg, env, core) if arg is not None else '<unknown>'
+        except Exception: v = '<unknown>'
+        vals.append(frozenset(v) if isinstance(v, (set, frozenset, list, tuple)) else '<unknown>')
+      if vals and '<unknown>' not in vals and len(set(vals)) == 1: res = vals[0]
+    if res == '<unknown>':
       ctx.undecided('R-AGREE', ltd, "component parsed from `%s`" % name, "parse expression not evaluable", (mod, s_), 'D5'); continue
-    good = (res == want) and len(set(got)) <= 1
+    good = res == (frozenset([want]) if want is not None else frozenset())
     n_ok += 1
     ctx.ob('R-AGREE', ltd, "component parsed from `%s`" % name, good,
-           "-> %r" % (res,) if good else "the name `%s` yields component %r, expected %r: the sink waits for the wrong component (its listeners are wired too early or never)" % (name, res, want), (mod, s_), 'D5')
+           "-> %r" % (sorted(res),) if good else "a sink whose only handler-like name is `%s` waits for %r, expected %r: the sink waits for the wrong component (its listeners are wired too early or never)" % (name, sorted(res), want), (mod, s_), 'D5')
   ctx.floor('handler-name samples evaluated', n_ok, 6)
